@@ -263,7 +263,7 @@ func (t *taint) solve(funcs []*ssa.Function) {
 }
 
 func c08(c *Ctx) {
-	c.R.Explanation = "C08: only the fault clause is decided ('a failed or non-finite read leaves the smoothed value unchanged'). R-propagate = in every Sensor.GetValue implementation (and util.ReadIntFromFile) every return reachable from the err != nil edge of an error-returning call carries a non-nil error (no failure is converted into a value). R-fresh = no Sensor.GetValue implementation reads through an open handle (os.File, bufio.Reader, ...) remembered in a field of the sensor object: the configured source is opened anew on every poll, so a deleted or replaced file is a failed read. R-skip = in the call tree of the sensor-monitor actor no path from the error edge of Sensor.GetValue reaches Sensor.SetMovingAvg or util.UpdateSimpleMovingAvg. R-finite = interprocedural taint: a value that originates from strconv.ParseFloat, math.NaN() or math.Inf() (the sources of NaN/±Inf; Atoi-based sources cannot produce them), followed through conversions, arithmetic, phi, locals, math.* and function returns (invokes resolved to all implementations), must cross edges establishing !math.IsNaN and !math.IsInf(.,0) before it reaches UpdateSimpleMovingAvg / SetMovingAvg in the monitor or in the instantiation code that seeds the average with the first reading. R-propagate also covers util.SafeCmdExecution (every failure edge of the command run leads to a non-nil error: a command that exits non-zero is a failed read, whatever it printed). Not decided: the hull and the geometric convergence rate (floating-point arithmetic over arbitrary sequences)."
+	c.R.Explanation = "C08: only the fault clause is decided ('a failed or non-finite read leaves the smoothed value unchanged'). R-propagate = in every Sensor.GetValue implementation (and util.ReadIntFromFile) every return reachable from the err != nil edge of an error-returning call carries a non-nil error (no failure is converted into a value). R-fresh = no Sensor.GetValue implementation reads through an open handle (os.File, bufio.Reader, ...) remembered in a field of the sensor object: the configured source is opened anew on every poll, so a deleted or replaced file is a failed read. R-skip = in the call tree of the sensor-monitor actor no path from the error edge of Sensor.GetValue reaches Sensor.SetMovingAvg or util.UpdateSimpleMovingAvg. R-finite = interprocedural taint: a value that originates from strconv.ParseFloat, math.NaN() or math.Inf() (the sources of NaN/±Inf; Atoi-based sources cannot produce them), followed through conversions, arithmetic, phi, locals, math.* and function returns (invokes resolved to all implementations), must cross edges establishing !math.IsNaN and !math.IsInf(.,0) before it reaches UpdateSimpleMovingAvg / SetMovingAvg in the monitor or in the instantiation code that seeds the average with the first reading. R-propagate also covers util.SafeCmdExecution (every failure edge of the command run leads to a non-nil error: a command that exits non-zero is a failed read, whatever it printed). R-kept = in the sensors package the value result of a fallible call is stored into a field of an object (a cache) only where that call's error is established nil: a value kept from a failed read would later be handed out with a nil error. Not decided: the hull and the geometric convergence rate (floating-point arithmetic over arbitrary sequences)."
 	c.R.Assumptions = append(c.R.Assumptions,
 		"strconv.Atoi/ParseInt cannot yield non-finite values; strconv.ParseFloat accepts nan/inf",
 		"the initial seeding of the average in InitializeObjects is not a poll (the statement's hull includes the initial value)")
@@ -288,6 +288,7 @@ func c08(c *Ctx) {
 		})
 	}
 	c.R.Require("R-propagate", 4)
+	c.ruleFailedReadNotKept("R-kept", PkgSensors)
 
 	// ---- R-fresh: every poll reads the configured source anew -------------------------------
 	// a handle (open file, reader) remembered in the sensor object keeps answering after the configured
@@ -583,4 +584,59 @@ func (c *Ctx) ruleAvgSkip(rule string) []*ssa.Function {
 	}
 	c.R.Require(rule, 1)
 	return monitorFns
+}
+
+// ruleFailedReadNotKept: the value result of a fallible call (T, error) is stored into a field of an object (a
+// cache, a "last value") only where that call's error is established nil. A value kept from a failed read is handed
+// out later as if it had been read: a cached 0 with a nil error is averaged in / regulated on.
+func (c *Ctx) ruleFailedReadNotKept(rule string, pkgs ...string) {
+	inPkg := func(p string) bool {
+		for _, q := range pkgs {
+			if p == q {
+				return true
+			}
+		}
+		return false
+	}
+	n, nbad := 0, 0
+	for _, fn := range c.P.Funcs {
+		if !inPkg(load_FuncPkgPath(fn)) || len(fn.Blocks) == 0 {
+			continue
+		}
+		Instrs(fn, func(ins ssa.Instruction) {
+			st, ok := ins.(*ssa.Store)
+			if !ok {
+				return
+			}
+			if _, isField := st.Addr.(*ssa.FieldAddr); !isField {
+				return
+			}
+			ex, ok := ir.Resolve(st.Val).(*ssa.Extract)
+			if !ok {
+				return
+			}
+			call, ok := ex.Tuple.(*ssa.Call)
+			if !ok {
+				return
+			}
+			res := call.Common().Signature().Results()
+			ei := res.Len() - 1
+			if ei < 1 || ex.Index == ei || !isErrorType(res.At(ei).Type()) {
+				return
+			}
+			n++
+			ev := errValueOfCall(call)
+			facts := ir.BlockFacts(st.Block())
+			okNil := ev != nil && ir.HasFact(facts, token.EQL, func(x, y ssa.Value) bool { return ir.Resolve(x) == ir.Resolve(ev) && ir.IsNilConst(y) })
+			_, fname, _ := ir.FieldName(st.Addr.(*ssa.FieldAddr))
+			key := c.FK(fn) + "|" + fname
+			if okNil {
+				c.R.Ok(rule, key, c.FK(fn), c.P.Pos(st.Pos()), "the value of "+ir.CallName(call)+" is kept in field "+fname+" only where its error is nil")
+			} else {
+				nbad++
+				c.R.Bad(rule, key, c.FK(fn), c.P.Pos(st.Pos()), "the value result of "+ir.CallName(call)+" is stored into field "+fname+" without its error being established nil: the value that accompanies a failed read (0) is kept and later handed out as a reading")
+			}
+		})
+	}
+	c.R.Ok(rule, "summary", strings.Join(pkgs, ", "), "-", sprintf("%d stores of a fallible call's value into a field, %d without a nil-error guard", n, nbad))
 }
